@@ -7,9 +7,9 @@ READY = True
 META = {
     "technique": "Lean 4 proof (slice model = CPython PySlice_AdjustIndices for all lists/bounds/steps) + exhaustive correspondence on the quantifier's box",
     "category": "proof",
-    "text": "Kernel-checked theorems: the Lean model of ops::slice (with every checked arithmetic operation modelled as a possible panic) returns exactly CPython's selection for every list shorter than 2^63 and every start/stop/step in i64, a zero step is the only error, no panic; subscripts likewise. Value level (MJ.Sub): for strings in all three representations (UTF-8 bytes; the Chars cursor provably stands on character boundaries and yields the scalar values; the result of a slice is, byte for byte, the concatenation of the whole byte ranges of the characters Python selects, for negative steps too, combining marks and 4-byte characters included), bytes, tuples, sequences, sized/unsized/one-shot iterables and slice parts / subscripts that are Python integers of any representation and size (bool, i64, u64, i128, u128; beyond i64 clamped by slice_bound), ops::slice / get_item_opt return Python's selection of the same type; slice is total (error iff a part does not convert, in start/stop/step order, or the step is zero, or the value has no sliceable representation), never panics; integral floats act as integers, everything else is the documented conversion error / undefined; VM arms GetItem/GetAttr/Slice under the four undefined modes. Representation is not an input: at every conversion site of the regenerated site table (the three slice parts, get_item_opt::index, every get_value that takes a position, the repetition count, the integer-typed arguments of range / batch / slice / indent / round / split / truncate / wordwrap / randrange / lipsum) two numbers holding the same integer convert alike whatever their ValueRepr (I64, U64, I128, U128, integral F64), booleans convert like 0 / 1, and everything that holds no integer is rejected uniformly. Every object kind the engine registers (regenerated list of impl Object blocks, ObjectRepr and Enumerator variants): Seq / Iterable objects are the model's seq / tuple / sized / unsized / one-shot classes; repetitions (seq * n, also nested: Python's xs * n with an honest length), reversed views (Python's reversed(x) = x[::-1] item by item), one-shot iterators used more than once (what each subscript / slice enumeration yields and leaves; nothing is yielded twice), chained sequences; maps and plain objects are not sliceable (the cannot-be-sliced error) and subscripted by key. Every dispatch/arm/message table the model interprets is regenerated from /repo. The model is tied to /repo by running model, CPython-transcription and the real engine on the whole box of the property's quantifier (exhaustive), the value-kind x key-kind product through 12 entry points and 4 undefined modes (value kinds: every string / bytes / ObjectRepr / Enumerator flavour incl. std sets and lists, repetitions, reversed views, custom objects per Enumerator variant), 140 derived built-in values with Python's own expectation of their items, relations (reverse/first/last/length) on every value, bounds produced inside templates by 40 expressions, one-shot iterators driven through op sequences, sequences of 2^16 and 10^5 items, long random sequences, metamorphic relations, and the conversion-site stream (every site x every representation), plus CPython itself as an independent witness for the spec.",
+    "text": "Kernel-checked theorems: the Lean model of ops::slice (with every checked arithmetic operation modelled as a possible panic) returns exactly CPython's selection for every list shorter than 2^63 and every start/stop/step in i64, a zero step is the only error, no panic; subscripts likewise. Value level (MJ.Sub): for strings in all three representations (UTF-8 bytes; the Chars cursor provably stands on character boundaries and yields the scalar values; the result of a slice is, byte for byte, the concatenation of the whole byte ranges of the characters Python selects, for negative steps too, combining marks and 4-byte characters included), bytes, tuples, sequences, sized/unsized/one-shot iterables and slice parts / subscripts that are Python integers of any representation and size (bool, i64, u64, i128, u128; beyond i64 clamped by slice_bound), ops::slice / get_item_opt return Python's selection of the same type; slice is total (error iff a part does not convert, in start/stop/step order, or the step is zero, or the value has no sliceable representation), never panics; integral floats act as integers, everything else is the documented conversion error / undefined; VM arms GetItem/GetAttr/Slice under the four undefined modes. Representation is not an input: at every conversion site of the regenerated site table (the three slice parts, get_item_opt::index, every get_value that takes a position, the repetition count, the integer-typed arguments of range / batch / slice / indent / round / split / truncate / wordwrap / randrange / lipsum) two numbers holding the same integer convert alike whatever their ValueRepr (I64, U64, I128, U128, integral F64), booleans convert like 0 / 1, and everything that holds no integer is rejected uniformly. Every object kind the engine registers (regenerated list of impl Object blocks, ObjectRepr and Enumerator variants): Seq / Iterable objects are the model's seq / tuple / sized / unsized / one-shot classes; repetitions (seq * n, also nested: Python's xs * n with an honest length), reversed views (Python's reversed(x) = x[::-1] item by item), one-shot iterators used more than once (what each subscript / slice enumeration yields and leaves; nothing is yielded twice), chained sequences; maps and plain objects are not sliceable (the cannot-be-sliced error) and subscripted by key. Every dispatch/arm/message table the model interprets is regenerated from /repo. The model is tied to /repo by running model, CPython-transcription and the real engine on the whole box of the property's quantifier (exhaustive), the value-kind x key-kind product through 12 entry points and 4 undefined modes (value kinds: every string / bytes / ObjectRepr / Enumerator flavour incl. std sets and lists, repetitions, reversed views, custom objects per Enumerator variant), 140 derived built-in values with Python's own expectation of their items, relations (reverse/first/last/length) on every value, bounds produced inside templates by 40 expressions, one-shot iterators driven through op sequences, sequences of 2^16 and 10^5 items, long random sequences, metamorphic relations, and the conversion-site stream (every site x every representation), plus CPython itself as an independent witness for the spec. Session 4: objects are modelled by Enumerator variant (MJ.Sub.Obj: repr, the variant enumerate() returns with what it yields and its size hints, get_value by position); try_iter / query_len arms, the length the Seq arm of get_item_opt offers to index and the data flow of the lazy object arm of ops::slice are the regenerated table C09_ENUMERATOR_ARMS; objSliceV_eq_python (C09_objects_full) and objGetItem_pyInt: an object of representation Seq or Iterable that holds the items xs - through ANY enumerable variant (Empty, Seq, Iter, RevIter, KeyValueIter, RevKeyValueIter, Str, Values), whether it announces its length (exact size hints, Seq(l)) or not - gives Python's xs[A:B:C] / xs[i] for all parts that are omitted or integers of any representation and size, end-relative subscripts of objects that announce no length included (fix dad5284); harnessObj_holds: the 15 enumerable object flavours of the correspondence stream `eo` satisfy the hypothesis; C09_main: an engine whose four operations (slice / get_item_opt on values and on objects) equal the model's (hypotheses corr_slice, corr_getItem, corr_objSlice, corr_objGetItem = what the correspondence streams validate) satisfies the property as stated (C09_statement). Stream eo: 16 flavours (9 variants x exact / too-large-upper / lower-only / absent size hints) x Seq / Iterable x n 0..4 x the complete box start, stop in {omitted} U [-5, 5], step in {omitted, -2, -1, 1, 2, 3, 0} + 36 subscript keys each, engine vs compiled model vs Python, every lazy result enumerated twice and its announced length compared with its items, expression vs Value::get_item.",
     "design_ref": "DESIGN.md §3 C09",
-    "level_note": "Trusted: Lean kernel; hand transcription of ops.rs slice/slice_bound/get_offset_and_len/range_step_backwards, value/mod.rs get_item_opt(+index)/get_item/get_item_by_index/get_attr and the VM arms GetItem/GetAttr/Slice into MJ/Model/{Slice,Subscript}.lean; every dispatch table, conversion arm list, error kind/message, length function and the handle_undefined table the model interprets is regenerated from /repo (lib/tables/c09.py) with shape checks. Validated exhaustively on the box (10 kinds x len 0..6 x 23 starts x 23 stops x 13 steps) and on the value-kind x key-kind product through 12 entry points x 4 undefined modes; long random sequences (len <= 2000, bounds near +-len, +-2^31, +-2^63, +-2^64, +-2^127) against the model and CPython. Round 5: the models of repeat_iterable / Repeated, Value::reverse, the one-shot iterator state machine and the conversion functions are hand transcriptions as well (MJ/Model/SubKinds.lean), tied by the regenerated tables C09_CONVERSION_SITES / C09_REPEATED / C09_OBJECT_IMPLS / C09_REVERSE (shape-checked) and by the streams mr / dr / pb / os / huge / cv; only validated (oracle streams, no model): GroupTuple, the built-in filters that produce the derived values (their items are compared with Python's expectation), sizedness of lazy results over iterators with inexact size hints, sequences longer than 10^5.",
+    "level_note": "Trusted: Lean kernel; hand transcription of ops.rs slice/slice_bound/get_offset_and_len/range_step_backwards, value/mod.rs get_item_opt(+index)/get_item/get_item_by_index/get_attr and the VM arms GetItem/GetAttr/Slice into MJ/Model/{Slice,Subscript}.lean; every dispatch table, conversion arm list, error kind/message, length function and the handle_undefined table the model interprets is regenerated from /repo (lib/tables/c09.py) with shape checks. Validated exhaustively on the box (10 kinds x len 0..6 x 23 starts x 23 stops x 13 steps) and on the value-kind x key-kind product through 12 entry points x 4 undefined modes; long random sequences (len <= 2000, bounds near +-len, +-2^31, +-2^63, +-2^64, +-2^127) against the model and CPython. Round 5: the models of repeat_iterable / Repeated, Value::reverse, the one-shot iterator state machine and the conversion functions are hand transcriptions as well (MJ/Model/SubKinds.lean), tied by the regenerated tables C09_CONVERSION_SITES / C09_REPEATED / C09_OBJECT_IMPLS / C09_REVERSE (shape-checked) and by the streams mr / dr / pb / os / huge / cv; only validated (oracle streams, no model): GroupTuple, the built-in filters that produce the derived values (their items are compared with Python's expectation), sizedness of lazy results over iterators with inexact size hints, sequences longer than 10^5. MOVED FROM VALIDATED TO PROVED in session 4 (the session-3 work was lost, see the preamble of lib/prompts/worker_C09_s4.txt): custom objects per Enumerator variant were validated through the `.seq` / `.iter` classes only (the model did not know enumerators); now MJ/Model/SubObj.lean models try_iter / query_len / enumerator_len / the Seq and Iterable arms of get_item_opt / the lazy object arm of ops::slice per variant over the regenerated table C09_ENUMERATOR_ARMS (shape-checked arm by arm: an edit of an arm of try_iter, query_len, of the Seq arm of get_item_opt or of the collect / stand-in branches of ops::slice breaks the tie and the theorems enumerator_arms_known / holds_tryIter / holds_queryLen), with theorems for ALL objects that hold their items (Holds o xs: the hypothesis is explicit and decidable per harness object) and the stream eo executing the new model part against the engine. Still hand transcription: objSliceItems / objGetItem themselves (tied by the shape checks of C09_ENUMERATOR_ARMS + eo). Still only validated: whether the lazy result of a slice announces a length (the hint arithmetic of skip / take / step_by is std's; eo checks that an announced length is the number of items), Enumerator::Seq(l) over an object whose get_value does not answer every position < l (undefined items; outside Holds), objects that are ObjectRepr::Map with a key-value enumerator (keys, not pairs; maps are not sliceable), a one-shot object behind ObjectRepr::Seq. The gap between proofs and code is now explicit: the four hypotheses of C09_main.",
 }
 
 KIND_CLASS = {"strplain": "str", "strsmall": "str", "strsafe": "str", "bytes": "bytes", "tuple": "tuple"}
@@ -210,7 +210,7 @@ def _spec_py(spec):
         n, a, b = [int(x) for x in arg.split("x")]
         return (list(range(n)) * a) * b, "iter"
     if tag == "CE":
-        return list(range(int(arg.split(":")[2]))), "iter"
+        return eo_items(arg.split(":")[1], int(arg.split(":")[2])), "iter"
     if tag == "RV":
         inner = arg.replace("=", ":")
         o = _spec_py(inner)
@@ -231,7 +231,7 @@ REVERSE_FORWARD = set()
 
 
 def enumerates_reviter(spec):
-    return spec.startswith("BS:") or spec.startswith("LL:") or (spec.startswith("CE:") and spec.split(":")[2] == "rev")
+    return spec.startswith("BS:") or spec.startswith("LL:") or (spec.startswith("CE:") and spec.split(":")[2] in ("rev", "revlo", "revnone"))
 
 
 SITE_REVITER = "reverse:RevIter"
@@ -600,8 +600,9 @@ MAPS_COVERED = {
     "object.rs:$map_type<Value, V>": "kind M + dv hm", "loop_object.rs:Loop": "dv loop_obj", "macro_object.rs:Macro": "ga stream on plain values (no items)",
     "module_object.rs:Module": "not sliceable (map); import tests are C18's", "contrib/globals.rs:Cycler": "dv cycler", "contrib/globals.rs:Joiner": "dv joiner",
 }
-ENUM_COVERED = {"NonEnumerable": "Q", "Empty": "CE:*:empty", "Str": "dv ce_i_str / ce_s_str", "Iter": "CE:*:iter*", "KeyValueIter": "dv ce_i_kv",
-                "RevIter": "CE:*:rev, BS, LL", "RevKeyValueIter": "dv ce_i_revkv", "Seq": "CE:*:seq, L, P", "Values": "CE:*:vals"}
+ENUM_COVERED = {"NonEnumerable": "Q, eo none", "Empty": "CE:*:empty, eo empty", "Str": "dv ce_i_str / ce_s_str, CE:*:str, eo str", "Iter": "CE:*:iter*, eo iter / iterlo / iterlow / iternone",
+                "KeyValueIter": "dv ce_i_kv, CE:*:kv*, eo kv / kvnone", "RevIter": "CE:*:rev*, BS, LL, eo rev / revlo / revnone",
+                "RevKeyValueIter": "dv ce_i_revkv, CE:I:revkvnone, eo revkv / revkvnone", "Seq": "CE:*:seq, L, P, eo seq", "Values": "CE:*:vals, eo vals"}
 MACROS_COVERED = {("impl_value_vec", "Vec"): "L", ("impl_value_vec", "VecDeque"): "D", ("impl_value_iterable", "LinkedList"): "LL",
                   ("impl_value_iterable", "HashSet"): "HS", ("impl_value_iterable", "BTreeSet"): "BS", ("impl_value_map", "BTreeMap"): "M",
                   ("impl_str_map", "BTreeMap"): "MS", ("impl_str_map", "HashMap"): "dv hm", ("impl_value_map", "HashMap"): "dv hm (same macro)",
@@ -765,6 +766,81 @@ def more_case(r, f, case, impl, m):
         return
 
 
+# ---- objects of every Enumerator variant x ObjectRepr::Seq / ::Iterable x honest / loose / absent size hints
+EO_VARIANT = {"none": "NonEnumerable", "empty": "Empty", "seq": "Seq", "vals": "Values", "iter": "Iter", "iterlo": "Iter", "iterlow": "Iter",
+              "iternone": "Iter", "rev": "RevIter", "revlo": "RevIter", "revnone": "RevIter", "str": "Str", "kv": "KeyValueIter",
+              "kvnone": "KeyValueIter", "revkv": "RevKeyValueIter", "revkvnone": "RevKeyValueIter"}
+EO_HINTS = {"iterlo": "upper bound too large", "iterlow": "lower bound only", "iternone": "no hints", "revlo": "upper bound too large",
+            "revnone": "no hints", "kvnone": "no hints", "revkvnone": "lower bound only"}
+
+
+EO_HELD = {}
+
+
+def eo_items(variant, n):
+    off = 1000 if variant == "str" else 2000 if variant.startswith(("kv", "revkv")) else 0
+    return [i + off for i in range(n)]
+
+
+def eo_case(r, f, case, impl, m):
+    """`eo <S|I> <variant> <n> s <a> <b> <c>` / `eo <S|I> <variant> <n> i <key>`: the model dispatches on the
+    enumerator variant (MJ.Sub.Obj); Python's answer on the items the object holds is the oracle for every
+    object that can be enumerated"""
+    rp, variant, n, op = f[1], f[2], int(f[3]), f[4]
+    r.hist["eo_variant"][("Seq" if rp == "S" else "Iterable") + ":" + EO_VARIANT.get(variant, "?")] += 1
+    r.hist["eo_size_hints"][EO_HINTS.get(variant, "exact / announced")] += 1
+    r.hist["eo_op"]["slice" if op == "s" else "subscript" if op == "i" else "enumerate"] += 1
+    r.count(case, n > 0)
+    loose_impl = impl.replace("iterS:", "iter:").replace("iterU:", "iter:")
+    if op == "m":
+        # what the object enumerates (`v|list`): the items Python's answers are taken on
+        if m is not None and not (impl == m or (m == "not-iterable" and impl.startswith("err:InvalidOperation"))):
+            r.model_disagreement(case, impl, m)
+        held = None
+        if impl.startswith("seq:"):
+            held = [int(x) for x in impl[4:].split(",") if x.lstrip("-").isdigit()] if impl != "seq:" else []
+            if len(held) != (0 if impl == "seq:" else impl.count(",") + 1):
+                held = None
+        EO_HELD[(rp, variant, n)] = held
+        if variant != "none" and not variant.startswith(("kv", "revkv")) and held != eo_items(variant, n):
+            # `Values`, `Iter`, `RevIter`, `Str`, `Seq`, `Empty` hand out the items they are given
+            r.oracle_failure(case, f"the object enumerates {impl[:100]}, it holds {eo_items(variant, n)}", "eo:enumerate:" + EO_VARIANT[variant])
+        return
+    if m is not None and loose_impl != m:
+        r.model_disagreement(case, impl, m)
+    if "!" in impl:
+        # the harness enumerates the lazy result twice and asks for its length
+        r.oracle_failure(case, "the result of the slice is not one sequence (two enumerations differ, or it announces a length it "
+                               "does not have, or the expression and Value::get_item disagree): " + impl[:120], "eo:unstable:" + variant)
+        return
+    # Python's answer is taken on what the object enumerates itself (for the key-value enumerators of an
+    # object that is not a map, what an item is - the pair - is the engine's rule, not the property's)
+    items = EO_HELD.get((rp, variant, n))
+    if variant == "none" or items is None:
+        r.hist["oracle"]["engine-rule (model only)"] += 1
+        return
+    if op == "s":
+        a, b, c = [_ib(x) for x in f[5:8]]
+        want = ZERO_STEP if c == 0 else "iter:" + ",".join(map(str, items[slice(a, b, c)]))
+        r.hist["oracle"]["python"] += 1
+        if loose_impl != want:
+            r.oracle_failure(case, f"engine returned {impl[:100]}, Python selects {want[:100]}",
+                             "eo:slice:%s:%s:%s" % (rp, EO_VARIANT[variant], "backward" if (c or 1) < 0 else "forward"))
+    else:
+        i = _key_int(f[5])
+        if i is None:
+            r.hist["oracle"]["engine-rule (model only)"] += 1
+            return
+        try:
+            want = "elem:%d" % items[i]
+        except IndexError:
+            want = "undef"
+        r.hist["oracle"]["python"] += 1
+        if impl != want:
+            r.oracle_failure(case, f"engine returned {impl[:100]}, Python's list(x)[k] is {want}",
+                             "eo:index:%s:%s:%s" % (rp, EO_VARIANT[variant], "from-end" if i < 0 else "from-start"))
+
+
 def glue_case(r, f, case, impl, mline):
     st = f[0]
     r.hist["stream"][st] += 1
@@ -782,6 +858,9 @@ def glue_case(r, f, case, impl, mline):
             r.model_disagreement(case, impl, m)
         derived_case(r, f, case, impl)
         return
+    if st == "eo":
+        eo_case(r, f, case, impl, m)
+        return
     if st == "meta":
         r.hist["meta_relation"][f[1]] += 1
         r.hist["kind"][f[2]] += 1
@@ -796,7 +875,7 @@ def glue_case(r, f, case, impl, mline):
     if m is not None and impl != m:
         # objects whose size hints are not exact: whether the lazy result of a slice knows its
         # length follows the hint arithmetic of skip/take/step_by, which the model does not carry
-        loose = st == "gs" and any(t in f[3] for t in ("iterlo", "iterlow", "iternone"))
+        loose = st == "gs" and any(t in f[3] for t in ("iterlo", "iterlow", "iternone", "revlo", "revnone", "kvnone", "revkvnone"))
         if not (loose and impl.replace("iterS:", "iterU:") == m.replace("iterS:", "iterU:")):
             r.model_disagreement(case, impl, m)
     if st == "long":
@@ -858,6 +937,9 @@ def run(r):
               "reverse / first / last / length on every value; bounds produced by 40 template expressions (all singles x 8 kinds, "
               "4000 random triples); 6000 op sequences on one one-shot iterator; lengths 65535..100000 x 8 kinds x 15 slices; every "
               "conversion site of the regenerated table x 36 keys (each small integer in all its representations); "
+              "session 4: + stream eo = 16 object flavours (every Enumerator variant x size-hint honesty) x ObjectRepr::Seq / ::Iterable x n 0..4 x "
+              "(start, stop in {omitted} U [-5, 5]) x step in {omitted, -2, -1, 1, 2, 3, 0} exhaustively + 36 subscript keys (thorough: n <= 6, "
+              "bounds [-7, 7], 11 steps incl. the i64 boundaries), + 9 more object specs on the gs / gi / mr axes; "
               "a case is non-trivial when it is distinct and selects from a non-empty sequence")
     r.assumptions = ["sequences longer than 6 behave like the model predicts (proved for the model for every length)",
                      "bounds outside i64 are rejected by i64::try_from before slicing",
@@ -869,7 +951,7 @@ def run(r):
     r.assumptions.append("map keys in the tie are booleans, integers in i64 and strings (the Ord/Eq of arbitrary Values is C07's)")
     r.assumptions.append("a HashSet of several items iterates in an order that changes from instance to instance: one-item sets only")
     r.assumptions.append("whether the lazy result of a slice over an iterator with inexact size hints knows its length is not modelled (items are)")
-    tables = ["C09_INDEXABLE_OBJECTS", "C09_SLICE_DISPATCH", "C09_SLICE_PRELUDE", "C09_INT_CONVERSION", "C09_GET_ITEM", "C09_VM_SUBSCRIPT",
+    tables = ["C09_ENUMERATOR_ARMS", "C09_INDEXABLE_OBJECTS", "C09_SLICE_DISPATCH", "C09_SLICE_PRELUDE", "C09_INT_CONVERSION", "C09_GET_ITEM", "C09_VM_SUBSCRIPT",
               "C09_KINDS", "C09_CONVERSION_SITES", "C09_REPEATED", "C09_OBJECT_IMPLS", "C09_REVERSE", "C09_MERGESEQ_FLATTEN"]
     r.regen_tables(tables)
     tbl = r.extra.get("tables") or {}
@@ -891,6 +973,8 @@ def run(r):
                 r.broken.append(f"object `{name}` (ObjectRepr::{rep}) is not listed in the C09 map / plain table")
             covered[name] = "(" + rep + ") " + str(MAPS_COVERED.get(name))
     for v in impls.get("variants", []):
+        if v not in EO_VARIANT.values():
+            r.broken.append(f"Enumerator::{v} is built by no object flavour of the eo stream")
         if v not in ENUM_COVERED:
             r.broken.append(f"Enumerator::{v} is enumerated by no C09 harness object")
     for mac, ty, _ in impls.get("macros", []):
@@ -909,7 +993,25 @@ def run(r):
         if fn not in CV_NO_VALUE and site not in CV_TEMPLATES:
             r.broken.append(f"conversion site `{site}` ({fn} -> {target}) has no template in the C09 conversion stream")
     r.extra["conversion_sites"] = [list(x) for x in sites]
-    r.lean_prove("MJ.Props.C09", "MJ/Audit/C09.lean", extra_targets=["drive_c09"])
+    # the lake build tree is shared with the checks of the other properties: when one of them rebuilds the
+    # regenerated MJ.Gen.Tables at the same moment, object files vanish under this build (`no such file or
+    # directory`, clang dying on a truncated .c file).  That is no statement about the proofs: build again.
+    # (A failure that names a Lean source position is never retried.)
+    import time as _t
+    for attempt in range(4):
+        nb = len(r.broken)
+        if r.lean_prove("MJ.Props.C09", "MJ/Audit/C09.lean", extra_targets=["drive_c09"]):
+            break
+        new = r.broken[nb:]
+        log = r.extra.get("lake_build_log", "")
+        transient = (len(new) == 1 and new[0].endswith("failed: see log") and
+                     re.search(r"(?i)no such file or directory|object file .* does not exist|failed to open|clang frontend command failed|signal 7|SIGBUS", log))
+        if not transient or attempt == 3:
+            break
+        del r.broken[nb:]
+        r.extra.setdefault("lake_build_retries", 0)
+        r.extra["lake_build_retries"] += 1
+        _t.sleep(15)
     exe = r.cargo_build("c09")
     if exe is None:
         return
@@ -970,7 +1072,7 @@ def run(r):
             n_seen += 1
             case, impl = line.split("\t")
             f = case.split()
-            if f[0] in ("gs", "gi", "ga", "long", "meta", "mg", "dv", "ds", "mr", "dr", "pb", "os", "huge"):
+            if f[0] in ("gs", "gi", "ga", "long", "meta", "mg", "dv", "ds", "mr", "dr", "pb", "os", "huge", "eo"):
                 glue_case(r, f, case, impl, model[i] if model is not None else None)
                 continue
             nontrivial = f[1] not in ("undef", "none") and f[2] != "0" and not (f[0] == "chain" and impl in ("undef", "list:", "str:", "tuple:", "bytes:"))
@@ -1038,7 +1140,11 @@ def replay(r, path):
         print("engine:", out.strip())
         print("model/spec:", model[0] if model else None)
         f = case.split()
-        if f[0] in ("mr", "dr", "pb", "os", "huge", "cv", "dv", "ds", "mg"):
+        if f[0] == "eo":
+            items = eo_items(f[2], int(f[3]))
+            print("python: the object holds", items, "->", ((items[slice(*[_ib(x) for x in f[5:8]])] if _ib(f[7]) != 0 else ZERO_STEP) if f[4] == "s"
+                  else "(x[k] is list(x)[k]; a variant `none` object cannot be enumerated: engine rule)"))
+        elif f[0] in ("mr", "dr", "pb", "os", "huge", "cv", "dv", "ds", "mg"):
             ident = {"dr": 2, "dv": 3, "ds": 2}.get(f[0])
             if ident is not None and f[ident] in DERIVED_EXPECT:
                 print("python: the value holds", _py_items(DERIVED_EXPECT[f[ident]]), "(relations / selections on it: see derived_case / more_case)")
